@@ -217,12 +217,35 @@ pub fn emit_access(out: &mut Out, rk: u64, pc: u64, pr: u64, w: Win, c: u64, r: 
                 checked_shared(&v, cu, ru, base, &mut o);
                 if cu < nc && ru < nr { unchecked_shared(&v, cu, ru, base, &mut o); }
             }
-            _ => {
+            2 => {
                 let mut v = t.view_mut(s, e);
                 let (nc, nr) = v.size();
                 checked_shared(&v, cu, ru, base, &mut o);
                 checked_mut(&mut v, cu, ru, base, &mut o);
                 if cu < nc && ru < nr { unchecked_shared(&v, cu, ru, base, &mut o); unchecked_mut(&mut v, cu, ru, base, &mut o); }
+            }
+            // nested receivers, cut from the outer window (1,1)-(C,R) (narrower than the root)
+            3 => {
+                let mut outer = t.view_mut((1, 1), (pc as usize, pr as usize));
+                let mut v = outer.view_mut(s, e);
+                let (nc, nr) = v.size();
+                checked_shared(&v, cu, ru, base, &mut o);
+                checked_mut(&mut v, cu, ru, base, &mut o);
+                if cu < nc && ru < nr { unchecked_shared(&v, cu, ru, base, &mut o); unchecked_mut(&mut v, cu, ru, base, &mut o); }
+            }
+            4 => {
+                let outer = t.view_mut((1, 1), (pc as usize, pr as usize));
+                let v = outer.view(s, e);
+                let (nc, nr) = v.size();
+                checked_shared(&v, cu, ru, base, &mut o);
+                if cu < nc && ru < nr { unchecked_shared(&v, cu, ru, base, &mut o); }
+            }
+            _ => {
+                let outer = t.view((1, 1), (pc as usize, pr as usize));
+                let v = outer.view(s, e);
+                let (nc, nr) = v.size();
+                checked_shared(&v, cu, ru, base, &mut o);
+                if cu < nc && ru < nr { unchecked_shared(&v, cu, ru, base, &mut o); }
             }
         }
     }));
@@ -263,6 +286,15 @@ pub fn gen_c02(out: &mut Out, tier: &str, _rng: &mut Rng) {
             let xs: Vec<u64> = if tier == "quick" { (0..=nc + 1).chain([u64::MAX, 1 << 62, ((1u128 << 64) / pc as u128) as u64]).collect() } else { coords(nc, pc) };
             let ys: Vec<u64> = if tier == "quick" { (0..=nr + 1).chain([u64::MAX, 1 << 63, 1 << 62, ((1u128 << 64) / pc as u128) as u64, (((1u128 << 64) / pc as u128) as u64).wrapping_add(1)]).collect() } else { coords(nr, pc) };
             for rk in [1, 2] { for &x in &xs { for &y in &ys { emit_access(out, rk, pc, pr, w, x, y); } } }
+        }
+        // windows of a window (view_mut of view_mut, view of view_mut, view of view)
+        if pc >= 2 && pr >= 2 {
+            for w in valid_windows(pc - 1, pr - 1) {
+                let (nc, nr) = { let (a, b) = (w.2 - w.0, w.3 - w.1); if a == 0 || b == 0 { (0, 0) } else { (a, b) } };
+                let xs: Vec<u64> = (0..=nc + 1).chain([u64::MAX, ((1u128 << 64) / pc as u128) as u64]).collect();
+                let ys: Vec<u64> = (0..=nr + 1).chain([u64::MAX, 1 << 62, ((1u128 << 64) / pc as u128) as u64]).collect();
+                for rk in [3, 4, 5] { for &x in &xs { for &y in &ys { emit_access(out, rk, pc, pr, w, x, y); } } }
+            }
         }
     }
 }
